@@ -10,6 +10,7 @@ ENG_FNS = {
     "ssse3": ["Ssse3::fft_private_ssse3", "Ssse3::ifft_private_ssse3", "Ssse3::mul_ssse3", "Ssse3::mul_128/muladd_128/fftb_128/ifftb_128"],
     "avx2": ["Avx2::fft_private_avx2", "Avx2::ifft_private_avx2", "Avx2::mul_avx2", "Avx2::mul_256/muladd_256/fftb_256/ifftb_256", "LutAvx2::from"],
     "naive": ["Naive::fft", "Naive::ifft", "Naive::mul", "Naive::mul_add", "tables::mul"],
+    "neon": ["engine_neon.rs ported textually: Neon::fft_private_neon", "Neon::ifft_private_neon", "Neon::mul_neon", "Neon::mul_128/muladd_128/fftb_128/ifftb_128 over neon_emul::{vld1q_u8,vst1q_u8,veorq_u8,vandq_u8,vdupq_n_u8,vshrq_n_u8,vqtbl1q_u8}"],
 }
 
 
@@ -33,7 +34,7 @@ def select(rnd, fam, tier_all=False):
         if m["kind"] == "miter" and (key in chosen[:2] or (key == big and m["engine"] == "avx2")):
             q.add(m["name"])
         # every engine: a final-odd-layer fft with an odd truncated size (size 2 and size 8) and a truncated ifft
-        if m["kind"] == "miter" and key in (("fft", 2, 1, odd_delta), ("fft", 8, odd_trunc, 0), ("ifft", 8, odd_trunc, 8)) and not (m["engine"] == "naive" and m["size"] > 4):
+        if m["kind"] == "miter" and key in (("fft", 2, 1, odd_delta), ("fft", 8, odd_trunc, 0), ("ifft", 8, odd_trunc, 8)) and not (m["engine"] == "neon" and m["size"] > 4):
             q.add(m["name"])
         if m["kind"] == "basis" and key == ("fft", 2, 1, odd_delta):
             q.add(m["name"])
@@ -76,7 +77,15 @@ def plan(ctx):
     rnd = random.Random(ctx.seed)
     fam = families.c15_family()
     q = select(rnd, fam)
-    hs = [mk(m, "C15", q) for m in fam if m["kind"] in ("basis", "additive", "mul", "kat") and m["engine"] in ("nosimd",) or m["kind"] == "mul"]
+    hs = [mk(m, "C15", q) for m in fam if (m["kind"] in ("basis", "additive", "kat") and m["engine"] == "nosimd") or (m["kind"] == "mul" and m["engine"] != "neon")]
+    for n, what in (("add_sub_mod_all_inputs_h", "add_mod / sub_mod are addition / subtraction modulo 65535 for all 2^32 operand pairs incl. the 0/65535 double zero"),
+                    ("fwht_2_all_inputs_h", "fwht_2 is (a+b, a-b) modulo 65535 for all 2^32 pairs")):
+        hs.append(Harness(f"c15e::{n}", "C15", what, encodes=["utils::add_mod", "utils::sub_mod", "fwht::fwht_2"], bounds="none (two 16-bit operands)", flags=FULL, timeout=600, mem_gb=4,
+                          symbolic="both operands"))
+    for n in ("fwht_4_at_0_1", "fwht_4_at_65532_1", "fwht_4_at_12_4", "fwht_4_at_0_16384", "fwht_4_at_16383_16384"):
+        hs.append(Harness(f"c15e::{n}", "C15", "fwht_4 at a concrete (offset, dist): the four entries become the radix-4 Walsh butterfly of their values modulo 65535, neighbours untouched, no index overflow",
+                          encodes=["fwht::fwht_4", "fwht::fwht_2"], bounds="concrete position (first, last, middle, largest dist); symbolic values", flags=FULL, timeout=900, mem_gb=6,
+                          symbolic="four 16-bit values", tiers=("quick", "thorough") if n in ("fwht_4_at_65532_1", "fwht_4_at_16383_16384") else ("thorough",)))
     import zcheck
     zq = zcheck.table_queries(ctx)
     return Plan(hs,
@@ -95,11 +104,11 @@ def plan03(ctx):
     rnd = random.Random(ctx.seed)
     fam = families.c15_family()
     q = select(rnd, fam)
-    hs = [mk(m, "C03", q) for m in fam if m["kind"] in ("miter", "mul_naive") or (m["kind"] == "kat" and m["engine"] != "nosimd")]
+    hs = [mk(m, "C03", q) for m in fam if m["kind"] in ("miter", "mul_naive") or (m["kind"] == "kat" and m["engine"] != "nosimd") or (m["kind"] == "mul" and m["engine"] == "neon")]
     return Plan(hs,
                 assumptions=["pshufb (128/256-bit) replaced by Rust models, validated by the known-answer harnesses against native execution",
                              "mul of Ssse3/Avx2/NoSimd: identical because each equals the same linear map of its row (C15 mul harnesses) and MUL128 = byte planes of MUL16 (C15 z3 obligation T3)",
                              "end to end: every engine refining the contract yields the same codec bytes (C01/C02 over the contract)",
                              "DefaultEngine = one of these engines behind Box<dyn Engine> (selection: C14)"],
-                outside=["Neon source on emulated intrinsics: NOT built in this session (DESIGN 4)", "FFT sizes > 8 (Naive: > 4)", "eval_poly bodies (all engines delegate to utils::eval_poly: C14 marker harness)"],
+                outside=["Naive::fft / Naive::ifft: NOT decided (they read the 65536-entry exp/log statics; full-block miter, one-lane miter and even a concrete known answer run out of memory or time under CBMC); Naive::mul is decided against NoSimd::mul", "AArch64 hardware (the Neon SOURCE runs on 7 emulated intrinsics written from the Arm pseudo-code)", "FFT sizes > 8 (Naive: > 4)", "eval_poly bodies (all engines delegate to utils::eval_poly: C14 marker harness)"],
                 trusted_base=COMMON_TRUSTED)
